@@ -398,8 +398,12 @@ fn encode_subframe(
             Verbatim::count_bits_from_metadata(samples.len(), bits_per_sample as usize);
 
         let too_short = samples.len() < MIN_BLOCK_SIZE_FOR_PREDICTION;
+        // The order selectors accept a candidate on an estimate of its size
+        // (or on a size that excludes the subframe overhead), so the actual
+        // size is checked here before the candidate can displace `Verbatim`.
         let fixed = if !too_short && config.use_fixed {
             fixed_lpc(config, samples, bits_per_sample, baseline_bits)
+                .filter(|x| x.count_bits() < baseline_bits)
         } else {
             None
         };
